@@ -47,6 +47,29 @@ func modelCandidate(o *Obligation, r *TargetResult, smtDir string) *rCandidate {
 	if o.Result == nil || len(o.Result.Raw) == 0 {
 		return nil
 	}
+	// prefer a model with short arrays: it can be written out completely and replays fast
+	for _, bound := range []int64{64, 256} {
+		var small []*Term
+		var gv []*Term
+		for _, in := range o.Inputs {
+			if in.T != nil {
+				gv = append(gv, in.T)
+			} else if in.Len != nil {
+				gv = append(gv, in.Len)
+				small = append(small, BvUle(in.Len, bv64(bound)))
+			}
+		}
+		if len(small) == 0 {
+			break
+		}
+		hyps := append([]*Term{}, r.Exec.assumes[:o.NHyp]...)
+		asserts := append(append(hyps, o.PC, Not(o.Goal)), small...)
+		res := Solve(Script(asserts, gv, r.Opaque), smtDir, fmt.Sprintf("replay_small_%d", bound), 6)
+		if res.Verdict == "sat" && len(res.Raw) > 0 {
+			o.Result.Raw = res.Raw
+			break
+		}
+	}
 	c := &rCandidate{Scalars: map[string]string{}, Arrays: map[string]rArrayVal{}, Origin: "solver model of the failed obligation"}
 	k := 0
 	var pins []*Term
@@ -137,9 +160,15 @@ func preconditionCandidates(o *Obligation, r *TargetResult, smtDir string) []rCa
 	}
 	sizes := []int64{-1}
 	if len(arrIn) > 0 {
-		sizes = []int64{1, 2, 3, 4, 5, 7, 8, 12, 16, 20, 32, 33}
+		sizes = []int64{1, 2, 3, 4, 5, 8, 16, 33}
 	}
-	for _, sz := range sizes {
+	type slot struct {
+		sz  int64
+		res SolveResult
+	}
+	results := make([]slot, len(sizes))
+	done := make(chan int, len(sizes))
+	for i, sz := range sizes {
 		asserts := append([]*Term{}, hyps...)
 		if sz >= 0 {
 			// pin the first array; the others are constrained by the preconditions or free but small
@@ -149,7 +178,17 @@ func preconditionCandidates(o *Obligation, r *TargetResult, smtDir string) []rCa
 			}
 		}
 		script := Script(asserts, gv, r.Opaque)
-		res := Solve(script, smtDir, fmt.Sprintf("replay_pre_%d", sz), 5)
+		results[i].sz = sz
+		go func(i int, sz int64, script string) {
+			results[i].res = Solve(script, smtDir, fmt.Sprintf("replay_pre_%d", sz), 4)
+			done <- i
+		}(i, sz, script)
+	}
+	for range sizes {
+		<-done
+	}
+	for _, sl := range results {
+		res, sz := sl.res, sl.sz
 		if res.Verdict != "sat" {
 			continue
 		}
@@ -229,7 +268,7 @@ func genReplayTest(p *Loaded, h *ssa.Function) (dir string, err error) {
 
 // replayObligation tries to exhibit the failure on the real code.
 func replayObligation(p *Loaded, o *Obligation, r *TargetResult, h *ssa.Function, smtDir, scratch string, seed int) (confirmed bool, detail map[string]interface{}, raw string) {
-	rf := rFile{Obligation: o.Name, Budget: 8000, Random: 3000, Class: o.Class}
+	rf := rFile{Obligation: o.Name, Budget: 5000, Random: 3000, Class: o.Class}
 	if c := modelCandidate(o, r, smtDir); c != nil {
 		rf.Candidates = append(rf.Candidates, *c)
 	}
